@@ -106,6 +106,11 @@ struct World : KernelHooks, ModelHost {
 	void on_file_op(const char *op, long result) override;
 	void on_alloc_fail(uint64_t index) override;
 	long fault_turn = -1; uint64_t faults_fired = 0; long canary_turn = -1;
+	bool reload_checked = false;
+	std::vector<JV> pw_changes;          // password changes the reference model applied, in order (C20)
+	void password_changed(const std::string &user, const std::string &oldpw, const std::string &newpw, bool tentative) override;
+	void password_resolved(int index, bool applied) override;
+	int password_changes() override { return (int)pw_changes.size(); }
 	// ModelHost
 	void expect(int c, const Exp &e) override;
 	uint64_t vnow() override { return now; }
